@@ -408,7 +408,10 @@ def run(ctx):
     # ------------------------------------------------------------------ R17.5 (sibling rule) a failed statement does not take accepted records with it
     ctx.import_rule("C18", "R18.3", "R17.5", "every record the SQLite writer accepted is on disk after close: transaction control is issued only by tx_cycle (a ROLLBACK on an error path discards the batch)")
     ctx.import_rule("C18", "R18.6", "R17.7", "every record written is readable: the reader lists every table the writer can create (no pattern that hides a legal type name)")
-    ctx.import_rule("C19", "R19.8", "R17.8", "every record written is readable after close, whatever the order of flush() and write(): one Avro container header per file")
+    # every record written is readable after close, whatever the order of flush() and write(): one Avro container header per file
+    # (the rule function of C19 is called directly: C19 takes R17.4 over from this module, so a mutual import_rule would not end)
+    from .c19 import check_one_container_header as _one_header17
+    _one_header17(ctx, "R17.8")
 
     # ------------------------------------------------------------------ R17.6 close() finalises unconditionally
     ctx.rule("R17.6", "in close() of the buffered writers the finalising call (writer.flush() / fp.flush() / commit) depends only on the resource existing (self.fp, self.writer, "
